@@ -139,11 +139,21 @@ Definition rank_of (ds : Z -> hist) (nodes : list Z) : Z -> nat :=
   lookup_rank (heights ds nodes (S (length nodes))).
 
 Definition acyclicb (ds : Z -> hist) (nodes : list Z) : bool :=
+  let r := rank_of ds nodes in      (* the table is computed once *)
   forallb (fun x =>
              negb (has_history ds x) ||
-             forallb (fun m => negb (has_history ds m) || (rank_of ds nodes m <? rank_of ds nodes x)%nat)
-                     (members_of ds x))
+             forallb (fun m => negb (has_history ds m) || (r m <? r x)%nat) (members_of ds x))
           nodes.
+
+(* every id is preceded by all its relation members that have a history (applied to every
+   emitted id this is the same as "preceded by all its descendants": the members are emitted
+   too, and so have theirs before them; it costs a list scan instead of a closure) *)
+Fixpoint members_firstb (ds : Z -> hist) (before : list Z) (l : list Z) : bool :=
+  match l with
+  | [] => true
+  | r :: rest => forallb (fun m => negb (has_history ds m) || memZ m before) (members_of ds r)
+                 && members_firstb ds (r :: before) rest
+  end.
 
 (* every id is preceded by all its descendants *)
 Fixpoint children_firstb (ds : Z -> hist) (n : nat) (before : list Z) (l : list Z) : bool :=
@@ -155,22 +165,35 @@ Fixpoint children_firstb (ds : Z -> hist) (n : nat) (before : list Z) (l : list 
 
 (* ------------------------------------------------------------------ the goroutine protocol
 
-   Producer P, consumer side C (Next / Close / cancel), one unbuffered channel, one context.
+   Producer P, consumer side C (Next / Close / cancel), one unbuffered channel, one context
+   DERIVED from the caller's (Close cancels it; cancelling the caller's context cancels it too).
    P is abstracted to the sequence of sends the walk performs ([todo], by the theorems above a
-   finite list), with a datasource call before each of them.  Every blocking point of P is a
-   select with ctx.Done(). *)
+   finite list), with datasource lookups before each of them.  Every blocking point of P
+   observes the derived context: the send is a select with ctx.Done(), and the lookup is handed
+   that same context (o.ds.RelationHistory(o.ctx, id)); the datasource is assumed to honour
+   the context it is given: a lookup in progress ends with an error once that context is done. *)
 Inductive pstate :=
-| PRun (todo : list Z)          (* between sends: calling the datasource / walking *)
+| PRun (todo : list Z)            (* between lookups and sends: walking *)
+| PLookup (todo : list Z)         (* inside o.ds.RelationHistory(o.ctx, id) *)
 | PSend (id : Z) (todo : list Z)  (* blocked in  select { case o.out <- id: ; case <-ctx.Done(): } *)
-| PDone.                        (* returned: channel closed, wg.Done() *)
+| PDone.                          (* returned: channel closed, wg.Done() *)
 
 Record sys := { prod : pstate; cancelled : bool; received : list Z }.
 
 Inductive step : sys -> sys -> Prop :=
+| st_lookup_start : forall todo c r,       (* the walk calls the datasource (it does not look at ctx first) *)
+    step {| prod := PRun todo; cancelled := c; received := r |}
+         {| prod := PLookup todo; cancelled := c; received := r |}
+| st_lookup_return : forall todo r,        (* the lookup returns its answer *)
+    step {| prod := PLookup todo; cancelled := false; received := r |}
+         {| prod := PRun todo; cancelled := false; received := r |}
+| st_lookup_cancelled : forall todo r,     (* the lookup sees its (derived) context done: error, walk returns *)
+    step {| prod := PLookup todo; cancelled := true; received := r |}
+         {| prod := PDone; cancelled := true; received := r |}
 | st_walk_send : forall id todo c r,       (* the walk reaches its next send (ctx.Err() == nil) *)
     step {| prod := PRun (id :: todo); cancelled := c; received := r |}
          {| prod := PSend id todo; cancelled := c; received := r |}
-| st_walk_cancelled : forall todo r,       (* if o.ctx.Err() != nil { return } / ds call fails *)
+| st_walk_cancelled : forall todo r,       (* if o.ctx.Err() != nil { return } *)
     step {| prod := PRun todo; cancelled := true; received := r |}
          {| prod := PDone; cancelled := true; received := r |}
 | st_walk_end : forall c r,                (* all ids walked *)
@@ -188,4 +211,4 @@ Inductive step : sys -> sys -> Prop :=
 
 (* producer steps left before it must have returned, once the context is cancelled *)
 Definition after_cancel_bound (p : pstate) : nat :=
-  match p with PRun _ => 2 | PSend _ _ => 1 | PDone => 0 end.
+  match p with PRun _ => 2 | PLookup _ => 1 | PSend _ _ => 1 | PDone => 0 end.
